@@ -370,7 +370,7 @@ func c08Case(c *core.Ctx, i int64, toks []lang.Tok, orig *lang.Program, r *rand.
 		}
 	}
 	src := cs.Laid.Src
-	if cs.Oc != nil && strings.HasPrefix(cs.Oc.Unspecified, "repeat result too large") {
+	if cs.Oc != nil && cs.Oc.TooLarge {
 		return
 	}
 	c.NoteInput("src", src)
